@@ -134,6 +134,25 @@ def group_chain(d):
     return {"files": {"top.sv": items}, "top": "top.sv"}
 
 
+def name_cycle(c):
+    """`include `X1 where the macros that name the file form a cycle of length c"""
+    items = []
+    for i in range(1, c + 1):
+        items += [pp.define("X%d" % i, None, [pp.bt("use", "X%d" % (i % c + 1))]), pp.nl()]
+    items += [pp.tok("a"), pp.nl(), pp.inc("X1", form=2), pp.nl(), pp.tok("z"), pp.nl()]
+    return {"files": {"top.sv": items, "h.svh": [pp.tok("h"), pp.nl()]}, "top": "top.sv"}
+
+
+def name_chain(d):
+    """`include `N1, N1 -> N2 -> ... -> Nd = "h.svh": legal up to the limit"""
+    items = []
+    for i in range(1, d + 1):
+        body = [pp.bt("use", "N%d" % (i + 1))] if i < d else [pp.bt("str", '"h.svh"')]
+        items += [pp.define("N%d" % i, None, body), pp.nl()]
+    items += [pp.tok("a"), pp.nl(), pp.inc("N1", form=2), pp.nl(), pp.tok("z"), pp.nl()]
+    return {"files": {"top.sv": items, "h.svh": [pp.tok("h"), pp.nl()]}, "top": "top.sv"}
+
+
 def run(tier, seed):
     v = vlib.Verdict("C09", tier, seed)
     vlib.build_harness()
@@ -164,6 +183,9 @@ def run(tier, seed):
         fam += [("macro_cycle", c, macro_cycle(c)), ("include_cycle", c, include_cycle(c)), ("mixed_cycle", c, mixed_cycle(c))]
     for c in (1, 2, 3):
         fam.append(("group_cycle", c, group_cycle(c)))
+        fam.append(("name_cycle", c, name_cycle(c)))
+    for d in (1, 2, 3, 62, 63, 64, 65, 66):
+        fam.append(("name_chain", d, name_chain(d)))
     for d in (1, 2, 15, 30, 31, 32, 33, 63, 64, 65):
         fam.append(("group_chain", d, group_chain(d)))
     for how in ("minc", "inc", "use", "mixinc"):
